@@ -83,7 +83,11 @@ def main():
     suites = []
     # a relay that wedges (a task that never finishes, a lock that is never released) must not leave the check without a verdict:
     # after the budget the check reports that it could not finish - which on the unchanged tree it does with a wide margin
-    budget = float(os.environ.get("VERIF_BUDGET_S", 1800 if a.tier == "quick" else 4 * 3600))
+    budget = float(os.environ.get("VERIF_BUDGET_S", 1800 if a.tier == "quick" else 2 * 3600))
+
+    if proof.get("failed") and "VERIF_BUDGET_S" not in os.environ:
+        # an obligation is already broken: what follows only searches for a failing input, and a search is allowed to give up
+        budget = min(budget, 600 if a.tier == "quick" else 3600)
 
     def watchdog():
         import faulthandler
